@@ -147,6 +147,35 @@ async def scenario(sh: Shard, rig, r, label, ncmd):
             sh.violation("C13:mirror-after-echo", f"{desc}: client block differs from the spa's after the echo", wit)
         return sent
 
+    def scribble_unrelated_state():
+        """'Every current state' includes what has nothing to do with the commanded devices: every item
+        of the status block that no device, demand, output, temperature or unit item shares a byte with
+        (keypad lock, filter cycles, reminders of all sorts ...) gets a random raw value - in the spa and,
+        as a refresh would bring it, in the client."""
+        prot_prefix = ("Ud", "Out", "P1", "P2", "P3", "P4", "P5", "BL", "LI", "L1", "Waterfall", "Econ", "Temp", "Setpoint", "RealSetPoint", "Displayed", "Heating", "Cooling", "PackType", "Pack", "Config", "Log", "MS", "Pump", "Blower", "Light")
+        protected = set()
+        for t_, x_ in refs.items():
+            if t_.startswith(prot_prefix) or not x_.inside_block():
+                protected |= set(range(x_.pos, x_.pos + x_.width))
+        nb = bytearray(sim.block)
+        n_ = 0
+        for t_, x_ in refs.items():
+            bs = set(range(x_.pos, x_.pos + x_.width))
+            if x_.inside_block() and not (bs & protected) and x_.pos >= 256:
+                word = int.from_bytes(nb[x_.pos : x_.pos + x_.width], "big")
+                # mostly a value the item has a label for (each label of each such item gets its turn)
+                raw = r.randrange(len(x_.labels)) if (x_.kind == "Enum" and x_.labels and r.random() < 0.75) else r.randrange(x_.mask + 1)
+                word = (word & ~x_.field_mask) | ((raw & x_.mask) << x_.shift)
+                nb[x_.pos : x_.pos + x_.width] = word.to_bytes(x_.width, "big")
+                n_ += 1
+        if n_:
+            sim.set_block(bytes(nb))
+            spa.struct.replace_status_block_segment(0, bytes(nb))
+            sh.count("unrelated_state_scribbles")
+            sh.maximum("unrelated_items_scribbled", n_)
+
+    if r.random() < 0.6:
+        scribble_unrelated_state()
     devices = [("pump", p_) for p_ in facade.pumps] + [("blower", b) for b in facade.blowers] + [("light", l) for l in facade.lights]
     if facade.eco_mode is not None:
         devices.append(("eco", facade.eco_mode))
@@ -154,6 +183,9 @@ async def scenario(sh: Shard, rig, r, label, ncmd):
     for step in range(ncmd):
         choices = ["watercare", "watercare-during-update", "temp", "unit"] + (["device"] * 4 + ["sync-pair"] if devices else [])
         k = r.choice(choices)
+        if step % 9 == 4 and r.random() < 0.5:
+            await rig.quiesce(settle=0.25)
+            scribble_unrelated_state()
         if k == "sync-pair":
             # the facade's plain (non-awaitable) methods hand the work to tasks: two commands of a
             # scene issued back to back, nobody waits in between - both must go out, once each
@@ -392,6 +424,7 @@ def main(tier, seed):
     run.need(run.counters.get("watercare_during_update_query_in_flight", 0) > 20, "too few watercare commands issued while the facade's own query was in flight")
     run.need(run.counters.get("commands_issued_behind_a_busy_lock", 0) > 10, "too few commands issued while the protocol lock was held by a retrying request")
     run.need(run.counters.get("long_connection_scenarios", 0) >= 1, "the long-lived connection scenario (command counter wrap) did not run")
+    run.need(run.counters.get("unrelated_state_scribbles", 0) > 20, "the unrelated part of the spa's state was never varied")
     run.need(run.counters.get("sync_api_command_pairs", 0) > 15 and {"str", "Decimal", "float"} <= run.sets.get("temperature_argument_forms", set()), "no back-to-back plain facade commands / temperature argument forms not all driven")
     for k in ("pump", "light", "eco"):
         run.need(k in run.sets.get("device_kinds", set()), f"no {k} command exercised")
